@@ -1,7 +1,158 @@
+(* C02: sequential refinement of schedule trees to the abstract token stream. *)
 From Coq Require Import List ZArith Bool Arith Lia.
 From PV Require Import Model.SchedTree.
 Import ListNotations.
 Local Open Scope Z_scope.
+
+(* ---------- induction principle for the nested type ---------- *)
+Section SchedInd.
+  Variable P : sched -> Prop.
+  Hypothesis HD : forall n d a i st, P (DoAt n d a i st).
+  Hypothesis HU : forall d f, P (Unlim d f).
+  Hypothesis HC : forall l la cs, Forall P l -> P (Comp l la cs).
+  Fixpoint sched_ind' (s : sched) : P s :=
+    match s with
+    | DoAt n d a i st => HD n d a i st
+    | Unlim d f => HU d f
+    | Comp l la cs =>
+        HC l la cs ((fix go (l : list sched) : Forall P l :=
+                       match l with
+                       | [] => Forall_nil _
+                       | x :: r => Forall_cons _ (sched_ind' x) (go r)
+                       end) l)
+    end.
+End SchedInd.
+
+(* ---------- static counts, leftAfter ---------- *)
+Definition cnt (x : sched) : Z :=
+  match x with DoAt n _ _ i _ => Z.of_nat (n - i) | _ => 0 end.
+Definition sumcnt (fl : list sched) : Z := fold_right (fun x a => cnt x + a) 0 fl.
+Definition statl (fl : list sched) : Z := if existsb unknown_part fl then -1 else sumcnt fl.
+Definition flatl (l : list sched) : list sched := flat_map flatten l.
+Fixpoint la_of (l : list sched) : list Z :=
+  match l with [] => [] | x :: r => statl (flatl r) :: la_of r end.
+
+(* as built by the constructors, never touched *)
+Inductive fresh : sched -> Prop :=
+| fr_doat n d a : fresh (DoAt n d a 0 None)
+| fr_unl d : fresh (Unlim d None)
+| fr_comp l : Forall fresh l -> l <> [] -> fresh (Comp l (la_of l) false).
+
+Inductive started : sched -> Prop :=
+| st_doat n d a i t : started (DoAt n d a i (Some t))
+| st_unl d f : started (Unlim d (Some f))
+| st_comp h r la : started h -> started (Comp (h :: r) la true).
+
+(* reachable states: the current path is arbitrary, everything behind it is fresh *)
+Inductive wf : sched -> Prop :=
+| wf_doat n d a i st : wf (DoAt n d a i st)
+| wf_unl d f : wf (Unlim d f)
+| wf_comp h r cs : wf h -> Forall fresh r ->
+    (cs = false -> fresh h) -> (cs = true -> started h) ->
+    wf (Comp (h :: r) (la_of (h :: r)) cs).
+
+Lemma fresh_wf s : fresh s -> wf s.
+Proof.
+  induction s as [| |l la cs IH] using sched_ind'; intros Hf; inversion Hf as [| |l' Hl Hne]; subst; try constructor.
+  destruct l as [|h r]; [congruence|].
+  inversion IH; subst. inversion Hl; subst.
+  constructor; auto. discriminate.
+Qed.
+
+Lemma fresh_not_started s : fresh s -> ~ started s.
+Proof. intros H S; inversion H; subst; inversion S. Qed.
+
+(* ---------- the abstraction ---------- *)
+Definition absp (p : Z) (s : sched) : list item := fst (items_from p (flatten s)).
+Definition afin (p : Z) (s : sched) : Z := snd (items_from p (flatten s)).
+
+Lemma items_app p a b :
+  items_from p (a ++ b) =
+  (fst (items_from p a) ++ fst (items_from (snd (items_from p a)) b),
+   snd (items_from (snd (items_from p a)) b)).
+Proof.
+  revert p; induction a as [|x r IH]; intros p; cbn [app items_from fst snd].
+  - destruct (items_from p b); reflexivity.
+  - destruct x as [n d at_ i st|d fin|l la cs].
+    + rewrite IH. destruct (items_from _ r) as [ir fr]. cbn [fst snd].
+      rewrite app_assoc. reflexivity.
+    + rewrite IH. destruct (items_from _ r) as [ir fr]. cbn [fst snd]. reflexivity.
+    + apply IH.
+Qed.
+
+Definition head_started (fl : list sched) : Prop :=
+  match fl with
+  | DoAt _ _ _ _ (Some _) :: _ => True
+  | Unlim _ (Some _) :: _ => True
+  | _ => False
+  end.
+
+Lemma items_param fl p q : head_started fl -> items_from p fl = items_from q fl.
+Proof.
+  destruct fl as [|x r]; cbn; [tauto|].
+  destruct x as [n d at_ i [t|]|d [f|]|l la cs]; cbn; tauto.
+Qed.
+
+(* ---------- drop_closed / abs_next / abs_left ---------- *)
+Lemma dc_app now a b :
+  drop_closed now (a ++ b) =
+  match drop_closed now a with [] => drop_closed now b | l => l ++ b end.
+Proof.
+  induction a as [|x r IH]; cbn [app drop_closed]; [destruct (drop_closed now b); reflexivity|].
+  destruct x as [t|f]; [reflexivity|].
+  destruct (now <? f); [reflexivity|apply IH].
+Qed.
+
+Lemma dc_idem now a : drop_closed now (drop_closed now a) = drop_closed now a.
+Proof.
+  induction a as [|x r IH]; cbn [drop_closed]; [reflexivity|].
+  destruct x as [t|f]; [reflexivity|].
+  destruct (now <? f) eqn:E; [cbn [drop_closed]; rewrite E; reflexivity|apply IH].
+Qed.
+
+Lemma dc_mono now now' a : now <= now' ->
+  drop_closed now' (drop_closed now a) = drop_closed now' a.
+Proof.
+  intros Hle. induction a as [|x r IH]; cbn [drop_closed]; [reflexivity|].
+  destruct x as [t|f]; [reflexivity|].
+  destruct (now <? f) eqn:E; [reflexivity|].
+  rewrite IH. apply Z.ltb_ge in E.
+  destruct (now' <? f) eqn:E'; [apply Z.ltb_lt in E'; lia|reflexivity].
+Qed.
+
+Lemma an_dc now f a : abs_next now f a = abs_next now f (drop_closed now a).
+Proof.
+  induction a as [|x r IH]; cbn [drop_closed abs_next]; [reflexivity|].
+  destruct x as [t|g]; [reflexivity|].
+  destruct (now <? g) eqn:E; [cbn [abs_next]; rewrite E; reflexivity|apply IH].
+Qed.
+
+Lemma an_app_ok now f1 f2 a b a' t :
+  abs_next now f1 a = (a', t, true) -> abs_next now f2 (a ++ b) = (a' ++ b, t, true).
+Proof.
+  induction a as [|x r IH]; cbn [app abs_next]; [discriminate|].
+  destruct x as [u|g].
+  - intros H; inversion H; subst; reflexivity.
+  - destruct (now <? g); [intros H; inversion H; subst; reflexivity|apply IH].
+Qed.
+
+Lemma an_fail now f a a' t :
+  abs_next now f a = (a', t, false) -> a' = [] /\ t = f /\ drop_closed now a = [].
+Proof.
+  induction a as [|x r IH]; cbn [abs_next drop_closed].
+  - intros H; inversion H; auto.
+  - destruct x as [u|g]; [discriminate|].
+    destruct (now <? g); [discriminate|apply IH].
+Qed.
+
+Lemma an_app_closed now f a b :
+  drop_closed now a = [] -> abs_next now f (a ++ b) = abs_next now f b.
+Proof.
+  intros H. rewrite an_dc, dc_app, H, <- an_dc. reflexivity.
+Qed.
+
+Lemma an_nil_closed now f a : drop_closed now a = [] -> abs_next now f a = ([], f, false).
+Proof. intros H. rewrite an_dc, H. reflexivity. Qed.
 
 (* ---------- finish callback ---------- *)
 Definition cb_step (e : bool + Z) (c : cbstate) : cbstate :=
@@ -29,4 +180,39 @@ Lemma cb_run_at_most_once evs : (cb_calls (cb_run evs cb_init) <= 1)%nat.
 Proof.
   assert (H : cb_inv cb_init) by (left; split; reflexivity).
   apply (cb_run_inv evs) in H. destruct H as [[_ H]|[_ H]]; rewrite H; lia.
+Qed.
+
+(* the callback runs exactly once iff some call let its caller see the finish, and never before *)
+Definition is_finish (e : bool + Z) : bool :=
+  match e with inl ok => negb ok | inr k => k =? 0 end.
+
+Lemma cb_run_done evs : forall c, cb_done c = true -> cb_run evs c = c.
+Proof.
+  induction evs as [|e r IH]; intros c D; [reflexivity|]. cbn [cb_run fold_left].
+  assert (E : cb_step e c = c).
+  { destruct e as [ok|k]; cbn [cb_step]; unfold cb_after_next, cb_after_left, cb_fire; rewrite D.
+    - destruct ok; reflexivity.
+    - destruct (k =? 0); reflexivity. }
+  rewrite E. apply IH, D.
+Qed.
+
+Lemma cb_run_exact evs :
+  cb_calls (cb_run evs cb_init) = if existsb is_finish evs then 1%nat else 0%nat.
+Proof.
+  assert (G : forall c, cb_done c = false ->
+              cb_calls (cb_run evs c) = if existsb is_finish evs then S (cb_calls c) else cb_calls c).
+  { induction evs as [|e r IH]; intros c D; [reflexivity|]. cbn [cb_run fold_left existsb].
+    destruct (is_finish e) eqn:F; cbn [orb].
+    - assert (E : cb_step e c = {| cb_done := true; cb_calls := S (cb_calls c) |}).
+      { destruct e as [ok|k]; cbn [cb_step is_finish] in *; unfold cb_after_next, cb_after_left, cb_fire; rewrite D.
+        - destruct ok; [discriminate|reflexivity].
+        - rewrite F. reflexivity. }
+      rewrite E. fold (cb_run r {| cb_done := true; cb_calls := S (cb_calls c) |}).
+      rewrite cb_run_done by reflexivity. reflexivity.
+    - assert (E : cb_step e c = c).
+      { destruct e as [ok|k]; cbn [cb_step is_finish] in *; unfold cb_after_next, cb_after_left.
+        - destruct ok; [reflexivity|discriminate].
+        - rewrite F. reflexivity. }
+      rewrite E. apply IH, D. }
+  apply (G cb_init). reflexivity.
 Qed.
